@@ -1228,7 +1228,7 @@ def c14_pairs(seed):
       ann.append('@Ground(%s);' % n)
     rules.append(Rule('Report', [x], distinct=True, body=Disj([A(n, x, y) for n in names])))
     prog = Program(rules, ann, gen.EXT)
-    preds = ['Report', names[2]]
+    preds = rnd.choice([['Report', names[2]], ['Report', names[2], names[0]], [names[1], names[0], 'Report']])
     K = 2
   else:
     rules = [Rule('Shared', [x, y], body=rnd.choice([A('E', x, y), Conj([A('E', x, z), A('F', z, y)])]))]
@@ -1237,7 +1237,7 @@ def c14_pairs(seed):
       rules.append(Rule('Mid', [x], distinct=True, body=A('Shared', x, y)))
       rules.append(Rule('Top', [x], body=Conj([A('Mid', x), A('G', x)])))
       ann.append('@Ground(Mid);')
-      preds = ['Top', 'Mid']
+      preds = rnd.choice([['Top', 'Mid'], ['Top', 'Mid', 'Shared'], ['Shared', 'Top', 'Mid']])
     elif kind == 'ground_diamond':
       # a grounded table read by two table-producing statements whose names sort on both
       # sides of it
@@ -1246,7 +1246,7 @@ def c14_pairs(seed):
       rules.append(Rule(n2, [y], distinct=True, body=A('Shared', x, y)))
       rules.append(Rule('Report', [x], body=Conj([A(n1, x), A(n2, x)])))
       ann += ['@Ground(%s);' % n1, '@Ground(%s);' % n2]
-      preds = ['Report', n2]
+      preds = rnd.choice([['Report', n2, n1], [n1, 'Report', n2], [n2, n1, 'Report']])   # both grounded inputs requested too
     else:
       rules.append(Rule('Mid', [x], distinct=True, body=A('Shared', x, y)))
       rules.append(Rule('Top', [x], body=Conj([A('Mid', x), A('G', x)])))
